@@ -17,6 +17,8 @@ import (
 	link_solicit_controller "github.com/aperturerobotics/bifrost/link/solicit/controller"
 	"github.com/aperturerobotics/bifrost/peer"
 	"github.com/aperturerobotics/bifrost/protocol"
+	"github.com/aperturerobotics/controllerbus/directive"
+	cdc "github.com/aperturerobotics/controllerbus/directive/controller"
 	"github.com/sirupsen/logrus"
 
 	"verifh/enum"
@@ -620,6 +622,62 @@ func TestC30(t *testing.T) {
 			}
 		}
 	}
+	// ---------- directive level: lookups the bus would share ----------
+	// The bus folds equivalent SolicitProtocol directives of one node into one
+	// instance: the second caller then receives every stream matched for the
+	// first. Two solicitations that differ in protocol ID or context must
+	// therefore never be equivalent - that would match the second one with a
+	// remote solicitation naming other fields. Every ordered pair over the
+	// values (plus separator-split values) x peer constraint x transport
+	// constraint is compared; a pair reported equivalent is confirmed on a real
+	// controllerbus directive controller (same instance returned).
+	dirVals := append([]pc{}, values...)
+	for _, sep := range []string{"/", ":", "|", ",", " ", "-"} {
+		dirVals = append(dirVals,
+			pc{protocol.ID("dex" + sep + "v1"), []byte("bucket")}, pc{"dex", []byte("v1" + sep + "bucket")},
+			pc{protocol.ID("dex" + sep), []byte("v1")}, pc{"dex", []byte(sep + "v1")})
+	}
+	dc := cdc.NewController(context.Background(), le)
+	dirPairs, dirFolded := 0, 0
+	for _, x := range dirVals {
+		for _, y := range dirVals {
+			if x.p == "" || y.p == "" {
+				continue
+			}
+			for _, pe := range []peer.ID{"", lo} {
+				for _, tp := range []uint64{0, 7} {
+					dirPairs++
+					d1 := link_solicit.NewSolicitProtocol(x.p, x.ctx, pe, tp)
+					d2 := link_solicit.NewSolicitProtocol(y.p, y.ctx, pe, tp)
+					key := fmt.Sprintf("%s|%s/peer=%v/tpt=%d", x, y, pe != "", tp)
+					eq, ok := d1.(directive.DirectiveWithEquiv)
+					if !ok || !eq.IsEquivalent(d2) {
+						acc.Case("directive", key, !same(x, y), "distinct")
+						continue
+					}
+					i1, r1, err1 := dc.AddDirective(d1, nil)
+					i2, r2, err2 := dc.AddDirective(d2, nil)
+					folded := err1 == nil && err2 == nil && i1 == i2
+					if r1 != nil {
+						r1.Release()
+					}
+					if r2 != nil {
+						r2.Release()
+					}
+					if !folded {
+						acc.Case("directive", key, !same(x, y), "equivalent-not-folded")
+						continue
+					}
+					acc.Case("directive", key, !same(x, y), "folded")
+					if !same(x, y) {
+						dirFolded++
+						run.Violation("matched-although-different/shared-directive/"+classify(x, y), fmt.Sprintf("SolicitProtocol%s is folded by the bus into the running SolicitProtocol%s of the same node: it receives the streams matched for the other (protocol, context) pair and its own pair is never advertised", y, x), map[string]any{"a": x.String(), "b": y.String()})
+					}
+				}
+			}
+		}
+	}
+	run.Cov["directive_pairs_compared"] = dirPairs
 	acc.Sample(map[string]any{"group": "two-node/values", "A": dvals[0].String(), "B": dvals[1].String(), "expect": "neither directive receives a stream"})
 	acc.Sample(map[string]any{"group": "two-node/constraints", "A": dvals[0].String() + "[peer=remote,tpt=own]", "B": dvals[0].String() + "[peer=,tpt=other]", "expect": "no match: B's transport constraint excludes the link"})
 	acc.Finish()
